@@ -444,7 +444,7 @@ impl Prop for C13 {
     fn plan(tier: Tier) -> Plan {
         Plan {
             shards: tier.pick(4, 16),
-            cases_per_shard: tier.pick(2_000, 10_000),
+            cases_per_shard: tier.pick(2_000, 30_000),
             watchdog: StdDuration::from_secs(tier.pick(300, 3600)),
         }
     }
